@@ -42,8 +42,8 @@ pub(crate) fn test_font() -> Font<NoTables> {
         head_table: HeadTable { major_version: 1, minor_version: 0, font_revision: crate::tables::Fixed::from_raw(0), check_sum_adjustment: 0, magic_number: 0x5F0F3CF5, flags: 0, units_per_em: 1000, created: 0, modified: 0, x_min: 0, y_min: 0, x_max: 0, y_max: 0, mac_style: crate::tables::MacStyle::empty(), lowest_rec_ppem: 0, font_direction_hint: 0, index_to_loc_format: crate::tables::IndexToLocFormat::Short, glyph_data_format: 0 },
         cmap_table: Box::new(cmap),
         maxp_table: MaxpTable { num_glyphs: 10, version1_sub_table: None },
-        hmtx_table: Box::new([]),
-        hhea_table: HheaTable { ascender: 0, descender: 0, line_gap: 0, advance_width_max: 0, min_left_side_bearing: 0, min_right_side_bearing: 0, x_max_extent: 0, caret_slope_rise: 0, caret_slope_run: 0, caret_offset: 0, num_h_metrics: 0 },
+        hmtx_table: Box::new([0x02, 0x58, 0, 10, 0, 0, 0, 0, 0, 0, 0, 0, 0, 0, 0, 0, 0, 0, 0, 0, 0, 0]), // one long metric (advance 600, lsb 10) + 9 side bearings
+        hhea_table: HheaTable { ascender: 0, descender: 0, line_gap: 0, advance_width_max: 0, min_left_side_bearing: 0, min_right_side_bearing: 0, x_max_extent: 0, caret_slope_rise: 0, caret_slope_run: 0, caret_offset: 0, num_h_metrics: 1 },
         vmtx_table: LazyLoad::NotLoaded,
         vhea_table: LazyLoad::NotLoaded,
         cmap_subtable_offset: 0,
